@@ -389,16 +389,18 @@ def run_cli_schedule(col):
         for label, rows in (("observed", rows_obs), ("nothing observed", rows_un)):
             data = os.path.join(tmp, f"{label[:3]}.h5")
             make_screen(rows).save_h5(data)
-            for (b, t, n) in ((7, 2, 3), (0, 1, 1), (3, 1, 2), (1, 3, 1)):
+            # each schedule twice in a row into the SAME --output (the second time with one more burn-in step and another
+            # seed): a finished file at the output path is no reason not to sample
+            for (b, t, n, seed_) in ((7, 2, 3, 3), (8, 2, 3, 4), (0, 1, 1, 3), (1, 1, 1, 5), (3, 1, 2, 3), (1, 3, 1, 3)):
                 del log[:]
-                case = {"kind": "cli-schedule", "screen": label, "b": b, "t": t, "n": n}
+                case = {"kind": "cli-schedule", "screen": label, "b": b, "t": t, "n": n, "seed": seed_}
                 col.evaluations += 1
                 col.states += 1
                 col.transitions += 1
                 out = os.path.join(tmp, "thetas.h5")
                 try:
                     run_cli("train_model", ["--data", data, "--output", out, "--model", "SparseDrugCombo", "--model-param", "n_embedding_dimensions=2",
-                                            "--n-samples", n, "--n-burnin", b, "--thin", t, "--seed", 3])
+                                            "--n-samples", n, "--n-burnin", b, "--thin", t, "--seed", seed_])
                 except BaseException as exc:  # noqa: BLE001
                     col.violation("C17|cli|raised", f"train_model on a screen with {label}, b={b} t={t} n={n}: {short_exc(exc)}", case)
                     continue
